@@ -21,7 +21,7 @@ var Introducers = []string{"Add", "AddRaw", "Set", "SetRaw", "WriteCas", "WriteC
 	"WriteWithXattrs", "UpdateXattrs", "WriteResurrectionWithXattrs", "WriteUpdateWithXattrs", "SetWithMeta", "WriteSubDoc-then-Touch", "Add-over-tombstone", "Set-over-tombstone"}
 
 // Order classes: how the deadline under test relates to the other deadlines / writes of the bucket.
-var Orders = []string{"only", "later-first", "later-after", "shorten", "lengthen", "preserve", "clear", "delete-clears", "past", "sibling-collection", "touch-shorten", "touch-lengthen"}
+var Orders = []string{"only", "later-first", "later-after", "shorten", "lengthen", "preserve", "clear", "delete-clears", "past", "sibling-collection", "touch-shorten", "touch-lengthen", "recreated-collection"}
 
 type Spec struct {
 	Disk       bool
@@ -185,9 +185,8 @@ func RunOne(tmp string, s Spec) (res Result) {
 	var setupCas atomic.Uint64      // CAS of the target after the set-up; deletions at or below it belong to the set-up
 	term := make(chan bool)
 	defer close(term)
-	for ci := 0; ci < 2; ci++ {
-		ci := ci
-		_ = cols[ci].StartDCPFeed(ctx, sgbucket.FeedArguments{ID: fmt.Sprintf("rt%d", ci), Backfill: sgbucket.FeedNoBackfill, Terminator: term}, func(e sgbucket.FeedEvent) bool {
+	feedCb := func(ci int) sgbucket.FeedEventCallbackFunc {
+		return func(e sgbucket.FeedEvent) bool {
 			if e.Opcode == sgbucket.FeedOpDeletion {
 				mu.Lock()
 				k := fmt.Sprintf("%d/%s", ci, e.Key)
@@ -201,7 +200,10 @@ func RunOne(tmp string, s Spec) (res Result) {
 				mu.Unlock()
 			}
 			return true
-		}, nil)
+		}
+	}
+	for ci := 0; ci < 2; ci++ {
+		_ = cols[ci].StartDCPFeed(ctx, sgbucket.FeedArguments{ID: fmt.Sprintf("rt%d", ci), Backfill: sgbucket.FeedNoBackfill, Terminator: term}, feedCb(ci), nil)
 	}
 	const key = "target"
 	lead := uint32(s.Lead)
@@ -292,6 +294,33 @@ func RunOne(tmp string, s Spec) (res Result) {
 		err = c.Set(key, uint32(t0-5), nil, []byte(`{"late":1}`))
 		t1 = time.Now().Unix()
 		wantAbsLo, wantAbsHi = t0-5, t0-5
+	case "recreated-collection":
+		// an earlier document of the named collection expires (the sweep has seen the collection), then the collection is
+		// dropped and created again under the same name; the deadline under test lives in the new incarnation
+		s.Coll = 1
+		res.Spec = s
+		c, other = cols[1], cols[0]
+		_ = c.SetRaw("early", uint32(time.Now().Unix())+1, nil, []byte("e"))
+		for i := 0; i < 60; i++ {
+			if _, _, gerr := c.GetRaw("early"); gerr != nil {
+				break
+			}
+			time.Sleep(100 * time.Millisecond)
+		}
+		if derr := b.DropDataStore(collB); derr != nil {
+			res.Incon = "drop: " + derr.Error()
+			return
+		}
+		ds2, cerr := b.NamedDataStore(collB)
+		if cerr != nil {
+			res.Incon = "re-create: " + cerr.Error()
+			return
+		}
+		c = ds2.(*rosmar.Collection)
+		cols[1] = c
+		_ = c.StartDCPFeed(ctx, sgbucket.FeedArguments{ID: "rt1b", Backfill: sgbucket.FeedNoBackfill, Terminator: term}, feedCb(1), nil)
+		t0, t1, err = introduce(c, s.Intro, key, lead, s.Relative)
+		setWant(lead)
 	case "sibling-collection":
 		_ = other.Set(key, 0, nil, []byte(`{"sibling":"never expires"}`)) // same key, other collection, no expiry
 		_ = other.Set("sib2", abs(time.Now().Unix(), far, s.Relative), nil, []byte(`{"sibling":"later"}`))
